@@ -118,6 +118,12 @@ func c15Trees(tier string, yield0 func(*tnode)) {
 		}
 	}
 	thorough := tier == "thorough"
+	// sibling directories whose names are prefixes of one another followed by a byte below '/': the order in which
+	// a walk meets the files differs from the order of their paths
+	for fs := 0; fs < 5; fs++ {
+		yield(c15Dir("work", c15Files(fs), c15Dir("api", c15Files(4)), c15Dir("api-v2", c15Files(1)), c15Dir("api.old", c15Files(1)), c15Dir("api0", c15Files(1), c15Dir("api", c15Files(1)), c15Dir("api!", c15Files(1)))))
+		yield(c15Dir("work", c15Files(fs), c15Dir("sub", c15Files(1), c15Dir("x", c15Files(1))), c15Dir("sub-x", c15Files(1)), c15Dir("sub.go", c15Files(1))))
+	}
 	for fs := 0; fs < 5; fs++ {
 		yield(c15Dir("work", c15Files(fs)))
 		for i, k := range c15DirKinds {
